@@ -3248,16 +3248,21 @@ RESUME_VALIDATE_CERTS:
     if (rc < 0 || ssl->err != SSL_ALERT_NONE)
     {
         psTraceInfo("WARNING: cert did not pass internal validation test\n");
+        /*  ssl->err should have been set correctly above but catch
+            any missed cases with the generic BAD_CERTIFICATE alert: a
+            failure reported through the return code only (validation
+            options that do not go together, a date that cannot be
+            parsed) left every authStatus untouched, and a user callback
+            told "no alert" would wave through a chain that was never
+            validated. */
+        if (ssl->err == SSL_ALERT_NONE)
+        {
+            ssl->err = SSL_ALERT_BAD_CERTIFICATE;
+        }
         /*      Cert auth failed.  If there is no user callback issue fatal alert
             because there will be no intervention to give it a second look. */
         if (ssl->sec.validateCert == NULL)
         {
-            /*  ssl->err should have been set correctly above but catch
-                any missed cases with the generic BAD_CERTIFICATE alert */
-            if (ssl->err == SSL_ALERT_NONE)
-            {
-                ssl->err = SSL_ALERT_BAD_CERTIFICATE;
-            }
             return MATRIXSSL_ERROR;
         }
     }
